@@ -40,7 +40,7 @@ CONSTANTS VarSeq,       \* the variables in order of first use (Vars is its rang
 ASSUME Vars = {VarSeq[i] : i \in 1..Len(VarSeq)}
 
 M == INSTANCE SolverMachine WITH
-        Lenient  <- FALSE,
+        Lenient  <- FALSE, PyEq <- FALSE,
         Atoms    <- Vars \cup NumToks,
         BadAtoms <- {},
         OpTable  <- {OPEN, TIMES, PLUS},
